@@ -155,7 +155,7 @@ pub fn exhaustive(ctx: &mut Ctx) {
 /// family view and the Boolean view (eval / interp over ALL manager variables) are re-checked.
 pub fn random(ctx: &mut Ctx) {
     let mut rng = ctx.rng(0xC09);
-    let cases = ctx.by_tier(60, 600);
+    let cases = ctx.by_tier(60, 6000);
     for case in 0..cases {
         let mut n = rng.range(2, 6) as u32;
         let mref = setup::<Zbdd>(1 << 16, 1 << rng.range(2, 10), if rng.chance(1, 3) { 4 } else { 1 }, n);
